@@ -590,7 +590,7 @@ def monitor_prepare(run, docs, outs):
         mon_fail(run, what, d, extra, sig)
     for d, (st, o) in zip(docs, outs):
         if st != 'ok':
-            fail('render raised %s' % (o if st == 'timeout' else (o['type'], o['site'], o['msg'])), d, {'outcome': str(o)[:800]},
+            fail('render raised %s' % ((o if st == 'timeout' else (o['type'], o['site'], o['msg'])),), d, {'outcome': str(o)[:800]},
                  'crash:%s' % ((o or {}).get('site'),) if st == 'exc' else 'timeout')
             continue
         if o['pdf_problems']:
@@ -833,7 +833,7 @@ def xobject_prepare(run, docs, outs):
         deferred.append((what, dict(stream='xobject-modes', item=it, options=d['options'], **extra), sig))
     for d, (st, o) in zip(docs, outs):
         if st != 'ok':
-            run.fail('xobject_probe raised %s' % (o if st == 'timeout' else (o['type'], o['site'], o['msg'])),
+            run.fail('xobject_probe raised %s' % ((o if st == 'timeout' else (o['type'], o['site'], o['msg'])),),
                      dict(stream='xobject-modes', items=d['items'], options=d['options'], outcome=str(o)[:800]),
                      signature='crash:%s' % ((o or {}).get('site'),) if st == 'exc' else 'timeout')
             continue
@@ -1027,7 +1027,7 @@ def svg_prepare(run, docs, outs):
     cases, meta, seen = [], [], set()
     for d, (st, o) in zip(docs, outs):
         if st != 'ok':
-            run.fail('svg_probe raised %s' % (o if st == 'timeout' else (o['type'], o['site'], o['msg'])),
+            run.fail('svg_probe raised %s' % ((o if st == 'timeout' else (o['type'], o['site'], o['msg'])),),
                      dict(stream='svg-viewbox', items=d['items'], outcome=str(o)[:800]),
                      signature='crash:%s' % ((o or {}).get('site'),) if st == 'exc' else 'timeout')
             continue
